@@ -59,6 +59,10 @@ enum Op {
 	Segmenter,
 	Compact,
 	ValidateFast,
+	/// not a chain op: a second `Store` handle on the chain's LMDB environment (as the peer store has)
+	/// commits a value of 48 KiB, pushing the environment over its resize threshold again and again
+	/// while the chain ops (NRD validate_tx: extending_readonly with nested reads, …) run
+	Fill(u64),
 }
 
 impl Op {
@@ -81,6 +85,7 @@ impl Op {
 			Op::Segmenter => vec!["segmenter", "Segmenter::kernel_segment", "Segmenter::output_segment"],
 			Op::Compact => vec!["compact"],
 			Op::ValidateFast => vec!["validate"],
+			Op::Fill(_) => vec![],
 		}
 	}
 	fn kind(&self) -> &'static str {
@@ -99,6 +104,7 @@ impl Op {
 			Op::Segmenter => "segmenter",
 			Op::Compact => "compact",
 			Op::ValidateFast => "validate_fast",
+			Op::Fill(_) => "fill_db",
 		}
 	}
 }
@@ -129,6 +135,8 @@ struct Shared {
 	sc: Arc<Scenario>,
 	/// set once compaction has really pruned (then `Orphan` is a legitimate answer for old blocks)
 	compacted: AtomicBool,
+	/// second handle on the chain's environment (long runs)
+	filler: Option<grin_store::Store>,
 	in_flight: Vec<AtomicUsize>,
 	arrivals: AtomicUsize,
 	completed: AtomicUsize,
@@ -435,6 +443,22 @@ fn exec(sh: &Shared, op: &Op, log: &mut ThreadLog, tid: usize) {
 				log.fails.push(format!("compact() failed under concurrency: {}", cls(&r)));
 			}
 			note(log, format!("compact:{}", cls(&r)));
+		}
+		Op::Fill(i) => {
+			if let Some(f) = &sh.filler {
+				let r = (|| -> Result<(), grin_store::Error> {
+					let mut b = f.batch()?;
+					b.put(None, format!("fill{:03}-{:05}", tid, i).as_bytes(), &vec![*i as u8; 48 * 1024])?;
+					b.commit()
+				})();
+				match r {
+					Ok(()) => note(log, "fill_db:ok".into()),
+					Err(e) => {
+						log.fails.push(format!("a 48 KiB batch of the second store handle on the chain's environment failed (thread {}): {:?}", tid, e));
+						note(log, "fill_db:err".into());
+					}
+				}
+			}
 		}
 		Op::ValidateFast => {
 			let r = c.validate(true);
@@ -859,8 +883,11 @@ fn run(out: &mut Out, rng: &mut Rng, work: &str, cfg: &RunCfg, stats: &mut BTree
 						3 | 4 => Op::Compact,
 						5 => Op::ValidateFast,
 						6 | 7 if !sc.txs.is_empty() => Op::ValidateTx(rng.below(sc.txs.len() as u64) as usize),
+						8 | 9 if cfg.long => Op::Fill(rng.below(100_000)),
 						_ => rand_read(rng, &sc),
 					}
+				} else if cfg.long && rng.chance(1, 10) {
+					Op::Fill(rng.below(100_000))
 				} else {
 					rand_read(rng, &sc)
 				};
@@ -888,8 +915,15 @@ fn run(out: &mut Out, rng: &mut Rng, work: &str, cfg: &RunCfg, stats: &mut BTree
 		let subject_dir = format!("{}/subject{}_{}", work, run, n);
 		let _ = std::fs::remove_dir_all(&subject_dir);
 		let chain = init_chain(&subject_dir, kit.genesis.clone()).unwrap();
+		let filler = if cfg.long {
+			Some(grin_store::Store::new(&subject_dir, None, Some("filler"), vec![], None, None).expect("second store handle"))
+		} else {
+			None
+		};
+		let map_before = lmdb_meta(&subject_dir).map(|m| m.0).unwrap_or(0);
 		let shared = Arc::new(Shared {
 			chain,
+			filler,
 			sc: sc.clone(),
 			compacted: AtomicBool::new(false),
 			in_flight: (0..n).map(|_| AtomicUsize::new(usize::MAX)).collect(),
@@ -1033,6 +1067,10 @@ fn run(out: &mut Out, rng: &mut Rng, work: &str, cfg: &RunCfg, stats: &mut BTree
 		if shared.compacted.load(Ordering::SeqCst) {
 			*stats.entry("runs:with-real-compaction-concurrent".into()).or_insert(0) += 1;
 		}
+		if cfg.long {
+			let map_after = lmdb_meta(&subject_dir).map(|m| m.0).unwrap_or(0);
+			*stats.entry(format!("fill:chain-env-map-chunks {}->{}", map_before / 1_048_576, map_after / 1_048_576)).or_insert(0) += 1;
+		}
 
 		// --- final state
 		let subj = Subject { dir: subject_dir.clone(), chain: None, genesis: kit.genesis.clone() };
@@ -1098,6 +1136,43 @@ fn run(out: &mut Out, rng: &mut Rng, work: &str, cfg: &RunCfg, stats: &mut BTree
 			.collect();
 		out.line(&format!("conc sim seed={} progs={}", rng.below(1 << 30), progs_s.join(",")), "finished");
 		out.flush();
+		// --- restart of the compacted node: the segmenter cache is empty, `segmenter()` has to rewind
+		// from the head to the archive header using the full blocks the compaction kept
+		if xreorg.is_some() {
+			let mut sh = Some(shared);
+			let mut inner = None;
+			for _ in 0..100 {
+				match Arc::try_unwrap(sh.take().unwrap()) {
+					Ok(x) => {
+						inner = Some(x);
+						break;
+					}
+					Err(a) => {
+						sh = Some(a);
+						std::thread::sleep(Duration::from_millis(10));
+					}
+				}
+			}
+			match inner {
+				Some(x) => {
+					drop(x);
+					let tag = format!("#ORACLE-FAIL C17 run={} seed={} threads={}: restart-after-compaction:", run, seed_from_env(), n);
+					match std::panic::catch_unwind(AssertUnwindSafe(|| init_chain(&subject_dir, kit.genesis.clone()))) {
+						Ok(Ok(c2)) => {
+							let stored = restart_checks(out, &c2, kit, &tag, stats);
+							if let Some(xr) = xr_results.last_mut() {
+								xr.stored = stored;
+							}
+						}
+						Ok(Err(e)) => out.raw(&format!("{} the compacted node does not restart: {}", tag, error_class(&e))),
+						Err(_) => out.raw(&format!("{} Chain::init of the compacted node panicked", tag)),
+					}
+				}
+				None => {
+					*stats.entry("restart:SKIPPED chain still shared".into()).or_insert(0) += 1;
+				}
+			}
+		}
 	}
 
 	// --- the twin gets the same extra blocks sequentially, never having compacted
@@ -1168,6 +1243,34 @@ fn run(out: &mut Out, rng: &mut Rng, work: &str, cfg: &RunCfg, stats: &mut BTree
 			}
 		}
 		*stats.entry("xreorg:twin-compared".into()).or_insert(0) += xr_results.len() as u64;
+		// the twin compacts now, single-threaded, nothing else running: the set of full blocks it
+		// keeps is what a sequential compaction of the same chain keeps
+		match std::panic::catch_unwind(AssertUnwindSafe(|| twin.c().compact())) {
+			Ok(Ok(())) => {
+				let tw: Vec<bool> = kit.blks.iter().map(|r| twin.c().get_block(&r.block.hash()).is_ok()).collect();
+				let kept = tw.iter().filter(|x| **x).count();
+				*stats.entry(format!("stored:twin-keeps {} of {} blocks, tail {}", kept, tw.len(), twin.c().tail().map(|t| t.height).unwrap_or(0))).or_insert(0) += 1;
+				for xr in xr_results.iter() {
+					if xr.stored.is_empty() {
+						continue;
+					}
+					let diff: Vec<String> = (0..tw.len())
+						.filter(|i| tw[*i] != xr.stored[*i])
+						.map(|i| format!("b{}(height {}, {})", i, kit.blks[i].height, if tw[i] { "missing in the concurrently compacted node" } else { "kept only by the concurrently compacted node" }))
+						.collect();
+					if !diff.is_empty() {
+						out.raw(&format!(
+							"#ORACLE-FAIL C17 run={} seed={} threads={}: the set of stored full blocks after concurrent compaction differs from what a sequential compaction of the same chain keeps: {}",
+							run, seed_from_env(), xr.threads, diff.join(", ")
+						));
+					} else {
+						*stats.entry("stored:same-set-as-sequential-compaction".into()).or_insert(0) += 1;
+					}
+				}
+			}
+			Ok(Err(e)) => out.raw(&format!("#STAT stored:twin compaction failed: {}", error_class(&e))),
+			Err(_) => out.raw("#STAT stored:twin compaction panicked"),
+		}
 		out.flush();
 	}
 }
@@ -1345,9 +1448,168 @@ fn orphan_pattern(out: &mut Out, shared: &Arc<Shared>, kit: &Kit, g: [usize; 3],
 	(chain_obs(c, kit), chain_roots(c))
 }
 
+
+/// validate a kernel segment against `header`
+fn kernel_segment_ok(sg: &grin_chain::txhashset::Segmenter, header: &BlockHeader, id: SegmentIdentifier) -> Result<(), String> {
+	match sg.kernel_segment(id) {
+		Ok(seg) => seg.validate(header.kernel_mmr_size, None, header.kernel_root).map_err(|e| format!("{:?}", e)),
+		Err(e) => Err(format!("not served: {}", error_class(&e))),
+	}
+}
+
+/// C17 "serving state" after concurrent compaction (head = T, height 81; archive header = height
+/// 60, strictly older than head - cut_through_horizon = 61): (a) from three threads at once
+/// `segmenter()` must answer with the archive header and serve a bitmap and kernel segments that
+/// validate against its roots; (b) every full block above the archive header on the head's chain
+/// must still be in the store.
+fn serve_state_checks(out: &mut Out, shared: &Arc<Shared>, kit: &Kit, t_id: usize, tag: &str, stats: &mut BTreeMap<String, u64>) {
+	let c = &shared.chain;
+	let ah = match c.txhashset_archive_header() {
+		Ok(h) => h,
+		Err(e) => {
+			out.raw(&format!("{} txhashset_archive_header() fails after compaction: {}", tag, error_class(&e)));
+			return;
+		}
+	};
+	let head = c.head().unwrap();
+	let horizon = head.height.saturating_sub(grin_core::global::cut_through_horizon() as u64);
+	*stats.entry(format!("serve:archive-height={} head={} horizon={}", ah.height, head.height, horizon)).or_insert(0) += 1;
+	if ah.height >= horizon {
+		out.raw(&format!("#STAT serve:WARNING archive header {} is not older than the horizon {}", ah.height, horizon));
+	}
+	let (txc, rxc) = mpsc::channel::<Vec<String>>();
+	let gate = Arc::new(std::sync::Barrier::new(3));
+	for i in 0..3u64 {
+		let sh = shared.clone();
+		let txc = txc.clone();
+		let gate = gate.clone();
+		let ah = ah.clone();
+		std::thread::spawn(move || {
+			setup_globals();
+			gate.wait();
+			let r = std::panic::catch_unwind(AssertUnwindSafe(|| {
+				let mut bad = vec![];
+				match sh.chain.segmenter() {
+					Ok(sg) => {
+						if sg.header().hash() != ah.hash() {
+							bad.push(format!("segmenter().header() is at height {} ({}), the archive header is at {} ({})", sg.header().height, sg.header().hash(), ah.height, ah.hash()));
+						}
+						if let Err(e) = bitmap_segment_ok(&sg, &ah) {
+							bad.push(format!("the bitmap segment served does not validate against the archive header: {}", e));
+						}
+						for id in [SegmentIdentifier { height: 4, idx: i }, SegmentIdentifier { height: 2, idx: 0 }] {
+							if let Err(e) = kernel_segment_ok(&sg, &ah, id) {
+								bad.push(format!("the kernel segment ({},{}) served does not validate against the archive header: {}", id.height, id.idx, e));
+							}
+						}
+					}
+					Err(e) => bad.push(format!("segmenter() fails: {}", error_class(&e))),
+				}
+				bad
+			}));
+			let _ = txc.send(match r {
+				Ok(b) => b,
+				Err(_) => vec!["segmenter() / segment generation panicked".to_string()],
+			});
+		});
+	}
+	drop(txc);
+	for _ in 0..3 {
+		match rxc.recv_timeout(Duration::from_secs(30)) {
+			Ok(bad) => {
+				for b in bad {
+					out.raw(&format!("{} serving state after concurrent compaction: {}", tag, b));
+				}
+			}
+			Err(_) => {
+				out.raw(&format!("{} segmenter() from three threads after compaction does not return (30 s)", tag));
+				out.flush();
+				std::process::exit(0);
+			}
+		}
+	}
+	*stats.entry("serve:segmenter-from-3-threads".into()).or_insert(0) += 1;
+	let mut missing = vec![];
+	let mut above = 0;
+	for id in path_to(kit, t_id) {
+		if kit.blks[id].height > ah.height {
+			above += 1;
+			if c.get_block(&kit.blks[id].block.hash()).is_err() {
+				missing.push(format!("b{}(height {})", id, kit.blks[id].height));
+			}
+		}
+	}
+	if !missing.is_empty() {
+		out.raw(&format!(
+			"{} after compaction (head {}, archive header {}) full blocks above the archive header are gone from the store: {} - a segmenter / txhashset_read that has to rewind from the head to the archive header cannot be built",
+			tag, head.height, ah.height, missing.join(", ")
+		));
+	}
+	*stats.entry(format!("serve:blocks-above-archive-header-stored={}", above - missing.len())).or_insert(0) += 1;
+}
+
+/// after the restart of the compacted node: `segmenter()` on an empty cache, segments validated,
+/// blocks above the archive header stored; returns the stored-set over the kit's blocks
+fn restart_checks(out: &mut Out, c: &Chain, kit: &Kit, tag: &str, stats: &mut BTreeMap<String, u64>) -> Vec<bool> {
+	let r = std::panic::catch_unwind(AssertUnwindSafe(|| {
+		let mut bad = vec![];
+		match (c.txhashset_archive_header(), c.segmenter()) {
+			(Ok(ah), Ok(sg)) => {
+				if sg.header().hash() != ah.hash() {
+					bad.push(format!("segmenter().header() height {} is not the archive header (height {})", sg.header().height, ah.height));
+				}
+				if let Err(e) = bitmap_segment_ok(&sg, &ah) {
+					bad.push(format!("bitmap segment does not validate against the archive header (height {}): {}", ah.height, e));
+				}
+				for id in [SegmentIdentifier { height: 4, idx: 0 }, SegmentIdentifier { height: 3, idx: 1 }] {
+					if let Err(e) = kernel_segment_ok(&sg, &ah, id) {
+						bad.push(format!("kernel segment ({},{}) does not validate against the archive header: {}", id.height, id.idx, e));
+					}
+				}
+				let head = c.head().unwrap();
+				let mut h = c.get_block_header(&head.last_block_h);
+				let mut n = 0;
+				while let Ok(hd) = h {
+					if hd.height <= ah.height {
+						break;
+					}
+					if c.get_block(&hd.hash()).is_err() {
+						bad.push(format!("full block at height {} (above the archive header {}) is not in the store", hd.height, ah.height));
+					}
+					n += 1;
+					h = c.get_previous_header(&hd);
+				}
+				bad.push(format!("INFO blocks-above-archive={}", n));
+			}
+			(Err(e), _) => bad.push(format!("txhashset_archive_header() fails: {}", error_class(&e))),
+			(_, Err(e)) => bad.push(format!("segmenter() on an empty cache fails (it rewinds from the head to the archive header): {}", error_class(&e))),
+		}
+		if let Err(e) = c.validate(true) {
+			bad.push(format!("validate(fast) fails: {}", error_class(&e)));
+		}
+		bad
+	}));
+	match r {
+		Ok(bad) => {
+			for b in bad {
+				if let Some(i) = b.strip_prefix("INFO ") {
+					*stats.entry(format!("restart:{}", i)).or_insert(0) += 1;
+				} else {
+					out.raw(&format!("{} {}", tag, b));
+				}
+			}
+		}
+		Err(_) => out.raw(&format!("{} segmenter() / segment generation panicked", tag)),
+	}
+	*stats.entry("restart:segmenter-on-empty-cache".into()).or_insert(0) += 1;
+	kit.blks.iter().map(|r| c.get_block(&r.block.hash()).is_ok()).collect()
+}
+
 #[derive(Default)]
 struct XrResult {
 	threads: usize,
+	/// which of the kit's blocks are stored as full blocks after compaction, reorg and restart
+	stored: Vec<bool>,
 	obs_x: String,
 	roots_x: String,
 	proofs_x: Vec<String>,
@@ -1442,6 +1704,7 @@ fn cross_compaction_reorg(
 		out.raw(&format!("{} compaction never pruned (tail still {} at head height {}): the scenario was not reached", tag, tail, head.height));
 	}
 	*stats.entry(format!("xreorg:tail-height-after-compaction={}", tail)).or_insert(0) += 1;
+	serve_state_checks(out, shared, kit, t_id, &tag, stats);
 	for o in bs {
 		if let Ok(Some(_)) = c.get_unspent(kit.outs[*o].commit) {
 			out.raw(&format!("{} output o{} is unspent although the head b{} spends it", tag, o, t_id));
@@ -2597,6 +2860,253 @@ fn segcache_probe(out: &mut Out, work: &str, seed: u64) {
 	}
 }
 
+
+// ---------------------------------------------------------------------------------------------
+// run `nestread` (C17, deadlock clause): a thread that holds an OUTER open transaction on the store
+// (an iterator, a batch, a child batch) performs 2..4 CONSECUTIVE nested reads (`get_ser`, `exists`,
+// a complete nested iteration) while another thread's `batch()` has found the environment above its
+// resize threshold and scheduled a resize - which waits for all open transactions and blocks new
+// ones except on threads that already hold one.  Nested read #1 ends (its TxCounter is dropped)
+// and read #2 starts with the outer transaction still open and the resize still pending: the
+// thread must still count as inside a transaction.  Every history runs under a 10 s watchdog; one
+// that does not complete is `#ORACLE-FAIL C17 deadlock …`.  The real chain has this shape
+// (validate_tx on an NRD kernel -> extending_readonly -> head() then get_block_header()).
+//   outer = iter : the resize request of the other thread falls before read #1 / between #1 and
+//                  #2 / after #2;
+//   outer = batch / child : the environment cannot pass the threshold while a batch is open, so the
+//                  request necessarily precedes read #1: `before` = the other thread requests while
+//                  this thread holds a helper iterator, then this thread's batch() (guard busy) and the
+//                  helper is dropped; `between` / `after` = this thread's own batch() is the (deferred)
+//                  request under the helper iterator, which is dropped before read #1 / between #1
+//                  and #2, and the other thread's batch() arrives (guard busy) after read #1.
+// ---------------------------------------------------------------------------------------------
+fn nestread(out: &mut Out, work: &str, seed: u64, thorough: bool) {
+	use grin_store::Store;
+	const DB: Option<u8> = Some(b'A');
+	let outers = ["iter", "batch", "child"];
+	let nesteds = ["get", "exists", "iter"];
+	let pendings = ["before", "between", "after"];
+	let mut cases: Vec<(&str, &str, usize, &str)> = vec![];
+	let mut k = 0usize;
+	for o in outers {
+		for nd in nesteds {
+			for pd in pendings {
+				if thorough {
+					for n in 2..=4 {
+						cases.push((o, nd, n, pd));
+					}
+				} else {
+					cases.push((o, nd, 2 + (k + k / 3) % 3, pd));
+					k += 1;
+				}
+			}
+		}
+	}
+	let mut stats: BTreeMap<String, u64> = BTreeMap::new();
+	let mut stalled = false;
+	for (idx, (outer, nested, n, pending)) in cases.iter().enumerate() {
+		let dir = format!("{}/nr{}", work, idx);
+		let _ = std::fs::remove_dir_all(&dir);
+		let store = Arc::new(Store::new(&dir, None, Some("nr"), vec![b'A'], None, None).expect("Store::new"));
+		// fill above the threshold (two batches: a batch has to fit the free part of the map)
+		for half in 0..2u8 {
+			let mut b = store.batch().expect("batch");
+			for i in 0..4u8 {
+				b.put(DB, format!("f{}", half * 4 + i).as_bytes(), &vec![half * 4 + i; 117_000]).expect("fill put");
+			}
+			b.commit().expect("fill commit");
+		}
+		let mut extra = 0u8;
+		loop {
+			let m = lmdb_meta(&dir).unwrap_or((1, 0, 0));
+			if m.1 * 4096 * 10 > 9 * m.0 || extra > 12 {
+				break;
+			}
+			let mut b = store.batch().expect("batch");
+			b.put(DB, format!("x{}", extra).as_bytes(), &vec![extra; 10_000]).expect("fill put");
+			b.commit().expect("fill commit");
+			extra += 1;
+		}
+		let before = lmdb_meta(&dir).unwrap_or((0, 0, 0));
+		if !(before.1 * 4096 * 10 > 9 * before.0) {
+			out.raw(&format!("#STAT nestread:WARNING case {} not above the threshold ({:?})", idx, before));
+		}
+		let (txc, rxc) = mpsc::channel::<Result<(Vec<String>, u128), String>>();
+		{
+			let store = store.clone();
+			let (outer, nested, n, pending) = (outer.to_string(), nested.to_string(), *n, pending.to_string());
+			std::thread::spawn(move || {
+				setup_globals();
+				let r = std::panic::catch_unwind(AssertUnwindSafe(|| -> Result<(Vec<String>, u128), String> {
+					let mut seq: Vec<String> = vec![];
+					let (t2tx, t2rx) = mpsc::channel::<Result<u128, String>>();
+					// the other thread's batch(): blocks until this thread has closed everything
+					let spawn_t2 = |store: Arc<Store>, t2tx: mpsc::Sender<Result<u128, String>>| {
+						std::thread::spawn(move || {
+							setup_globals();
+							let t0 = Instant::now();
+							let r = (|| -> Result<u128, String> {
+								let mut b = store.batch().map_err(|e| format!("batch: {:?}", e))?;
+								let ms = t0.elapsed().as_millis();
+								b.put(DB, b"t2", &vec![0x77u8; 20_000]).map_err(|e| format!("put: {:?}", e))?;
+								b.commit().map_err(|e| format!("commit: {:?}", e))?;
+								Ok(ms)
+							})();
+							let _ = t2tx.send(r);
+						});
+						std::thread::sleep(Duration::from_millis(40));
+					};
+					let read = |seq: &mut Vec<String>, i: usize| -> Result<(), String> {
+						let key = format!("f{}", (i * 3) % 8);
+						match nested.as_str() {
+							"get" => match store.get_ser::<Vec<u8>>(DB, key.as_bytes(), None) {
+								Ok(Some(v)) if v.len() == 117_000 => {}
+								other => return Err(format!("nested get_ser #{} = {:?}", i, other.map(|o| o.map(|v| v.len())))),
+							},
+							"exists" => match store.exists(DB, key.as_bytes()) {
+								Ok(true) => {}
+								other => return Err(format!("nested exists #{} = {:?}", i, other)),
+							},
+							_ => match store.iter(DB, |k, v| Ok((k.to_vec(), v.len()))) {
+								Ok(it) => {
+									let cnt = it.filter(|x| x.is_ok()).count();
+									if cnt < 8 {
+										return Err(format!("nested iteration #{} yields {} entries", i, cnt));
+									}
+								}
+								Err(e) => return Err(format!("nested iter #{}: {:?}", i, e)),
+							},
+						}
+						seq.push("e0".into());
+						seq.push("l0".into());
+						Ok(())
+					};
+					let mut t2_spawned = false;
+					if outer == "iter" {
+						let o = store.iter(DB, |k, v| Ok((k.to_vec(), v.len()))).map_err(|e| format!("outer iter: {:?}", e))?;
+						seq.push("e0".into());
+						if pending == "before" {
+							spawn_t2(store.clone(), t2tx.clone());
+							t2_spawned = true;
+							seq.push("q".into());
+						}
+						for i in 1..=n {
+							read(&mut seq, i)?;
+							if (i == 1 && pending == "between") || (i == 2 && pending == "after") {
+								spawn_t2(store.clone(), t2tx.clone());
+								t2_spawned = true;
+								seq.push("q".into());
+							}
+						}
+						drop(o);
+						seq.push("l0".into());
+					} else {
+						let h = store.iter(DB, |k, v| Ok((k.to_vec(), v.len()))).map_err(|e| format!("helper iter: {:?}", e))?;
+						let mut h = Some(h);
+						seq.push("e0".into());
+						if pending == "before" {
+							spawn_t2(store.clone(), t2tx.clone());
+							t2_spawned = true;
+							seq.push("q".into());
+						}
+						let mut b = store.batch().map_err(|e| format!("outer batch: {:?}", e))?;
+						if pending != "before" {
+							seq.push("q".into());
+						}
+						seq.push("e0".into());
+						b.put(DB, b"own", &vec![0x11u8; 5_000]).map_err(|e| format!("put: {:?}", e))?;
+						if pending != "after" {
+							drop(h.take());
+							seq.push("l0".into());
+						}
+						{
+							let mut child = if outer == "child" { Some(b.child().map_err(|e| format!("child: {:?}", e))?) } else { None };
+							if let Some(c) = child.as_mut() {
+								c.put(DB, b"own-child", &vec![0x22u8; 3_000]).map_err(|e| format!("child put: {:?}", e))?;
+							}
+							for i in 1..=n {
+								read(&mut seq, i)?;
+								if i == 1 {
+									if pending == "after" {
+										drop(h.take());
+										seq.push("l0".into());
+									}
+									if !t2_spawned {
+										// arrives while the resize is pending: guard busy, it waits
+										spawn_t2(store.clone(), t2tx.clone());
+										t2_spawned = true;
+									}
+								}
+							}
+							if let Some(c) = child.take() {
+								c.commit().map_err(|e| format!("child commit: {:?}", e))?;
+							}
+						}
+						b.commit().map_err(|e| format!("outer commit: {:?}", e))?;
+						seq.push("l0".into());
+					}
+					let _ = t2_spawned;
+					drop(t2tx);
+					seq.push("w".into());
+					// the other thread's batch can run now
+					let ms = match t2rx.recv_timeout(Duration::from_secs(8)) {
+						Ok(Ok(ms)) => ms,
+						Ok(Err(e)) => return Err(format!("the other thread's batch failed: {}", e)),
+						Err(_) => return Err("STALL: the other thread's batch() does not return although every transaction is closed".to_string()),
+					};
+					seq.push("e1".into());
+					seq.push("l1".into());
+					Ok((seq, ms))
+				}));
+				let _ = txc.send(match r {
+					Ok(x) => x,
+					Err(_) => Err("panic".to_string()),
+				});
+			});
+		}
+		let label = format!("outer={} nested={} n={} pending={}", outer, nested, n, pending);
+		match rxc.recv_timeout(Duration::from_secs(10)) {
+			Ok(Ok((seq, ms))) => {
+				let after = lmdb_meta(&dir).unwrap_or((0, 0, 0));
+				if after.0 <= before.0 {
+					out.raw(&format!("#ORACLE-FAIL C17 nestread {}: everything returned but the map was not enlarged ({} -> {}) although the other thread's batch() found it above the threshold", label, before.0, after.0));
+				}
+				if ms < 30 {
+					out.raw(&format!("#ORACLE-FAIL C17 nestread {}: the other thread's batch() returned after {} ms, before this thread had closed its outer transaction (a resize was due)", label, ms));
+				}
+				*stats.entry(format!("nestread:completed outer={} pending={}", outer, pending)).or_insert(0) += 1;
+				*stats.entry(format!("nestread:nested={} n={}", nested, n)).or_insert(0) += 1;
+				out.line(&format!("conc nestread {} sched={}", label, seq.join(",")), "completed:resizes=1");
+			}
+			Ok(Err(e)) => {
+				if e.starts_with("STALL") {
+					stalled = true;
+					out.raw(&format!("#ORACLE-FAIL C17 deadlock nestread {}: {}", label, e));
+				} else {
+					out.raw(&format!("#ORACLE-FAIL C17 nestread {}: {}", label, e));
+				}
+				out.line(&format!("conc nestread {} sched=e0", label), "failed");
+			}
+			Err(_) => {
+				stalled = true;
+				out.raw(&format!(
+					"#ORACLE-FAIL C17 deadlock nestread {}: a thread holding an outer {} performs {} consecutive nested {} reads while another thread's batch() has scheduled a resize (request {} the first read): the history does not complete within 10 s - a nested read waits for the resize that waits for this thread's outer transaction",
+					label, outer, n, nested, pending
+				));
+				out.line(&format!("conc nestread {} sched=e0", label), "stalled");
+			}
+		}
+		out.flush();
+	}
+	for (k, v) in &stats {
+		out.raw(&format!("#STAT {}={}", k, v));
+	}
+	out.raw(&format!("#STAT nestread:histories={} stalled={}", cases.len(), stalled));
+	out.flush();
+	// a stalled history leaves threads blocked for ever
+	std::process::exit(0);
+}
+
 fn main() {
 	quiet_panics();
 	setup_globals();
@@ -2613,6 +3123,10 @@ fn main() {
 	}
 	if mode == "probe" {
 		probe(&mut out, &work);
+		return;
+	}
+	if mode == "nestread" {
+		nestread(&mut out, &work, seed_from_env(), tier_thorough());
 		return;
 	}
 	if mode == "segcache" {
